@@ -25,7 +25,7 @@ CONST_METRICS = (
     "none", "identity", "scaled", "diag_array", "diag", "dense_array", "dense", "chol_lower", "chol_upper", "eig",
     "block", "lowrank_plus", "lowrank_minus", "softabs_const", "product",
 )
-CONSTRAINTS = ("hyperplane", "hyperplanes2", "sphere", "quadric", "two_quadrics", "arctan_sphere", "arctan_quadric")
+CONSTRAINTS = ("hyperplane", "hyperplanes2", "sphere", "quadric", "two_quadrics", "arctan_sphere", "arctan_quadric", "sine")
 
 
 def _rng(*keys) -> np.random.Generator:
@@ -141,6 +141,15 @@ class Constraint:
     def __init__(self, kind: str, dim: int, rng) -> None:
         self.kind, self.dim = kind, dim
         self.arctan = kind.startswith("arctan_")
+        self.sine = kind == "sine"
+        if self.sine:
+            # wavy curve / sheet q_1 = A sin(w q_0): a retraction along a fixed direction can land on another branch
+            self.n, self.A_s, self.w_s = 1, float(rng.uniform(0.7, 1.3)), float(rng.uniform(2.0, 4.0))
+            self.B, self.d, self.e = np.zeros((1, dim, dim)), np.zeros((1, dim)), np.zeros(1)
+            q0 = rng.standard_normal(dim) * 0.8
+            q0[1] = self.A_s * np.sin(self.w_s * q0[0])
+            self.q0 = q0
+            return
         base = kind[len("arctan_"):] if self.arctan else kind
         if base == "hyperplane":
             n = 1
@@ -170,9 +179,16 @@ class Constraint:
         self.q0 = q0
 
     def g(self, q):
+        if self.sine:
+            return np.array([q[1] - self.A_s * np.sin(self.w_s * q[0])])
         return np.einsum("j,ijk,k->i", q, self.B, q) + self.d @ q - self.e
 
     def gjac(self, q):
+        if self.sine:
+            j = np.zeros((1, self.dim))
+            j[0, 0] = -self.A_s * self.w_s * np.cos(self.w_s * q[0])
+            j[0, 1] = 1.0
+            return j
         return 2 * np.einsum("ijk,k->ij", self.B, q) + self.d
 
     def c(self, q):
@@ -187,6 +203,10 @@ class Constraint:
 
     def hess(self, q=None):
         """(n, dim, dim) second derivatives of c at q (constant for the polynomial kinds)."""
+        if self.sine:
+            h = np.zeros((1, self.dim, self.dim))
+            h[0, 0, 0] = self.A_s * self.w_s**2 * np.sin(self.w_s * q[0])
+            return h
         if not self.arctan:
             return 2 * self.B
         g, gj = self.g(q), self.gjac(q)
